@@ -16,6 +16,8 @@ package message
 
 import (
 	"bytes"
+	encbin "encoding/binary"
+	"io"
 	"sort"
 	"time"
 
@@ -185,6 +187,11 @@ func DecodeFrame(buf []byte) (out Frame, err error) {
 	// We need to allocate, given that the unmarshal is now no-copy. By using 'nil' as destination
 	// we make sure that the underlying buffer is calculated based on the decoded length.
 	if buf, err = decompress(buf); err == nil {
+		// The frame starts with its number of messages, which sizes the slice they are decoded
+		// into: a message takes at least four bytes, more cannot be in there
+		if n, k := encbin.Uvarint(buf); k <= 0 || n > uint64(len(buf))/4 {
+			return nil, io.EOF // what decoding that many messages would end in
+		}
 		err = binary.Unmarshal(buf, &out)
 	}
 	return
